@@ -18,14 +18,15 @@ TECHNIQUE = ("Coq proofs over a function-by-function model of gmtls/conn.go's re
              "specifications of SM4, HMAC-SM3 and GCM for which the premises are proved; the extracted model is run against the "
              "real code on single-record mutants, stateful pairs and handshake-phase reads (white box), on attacker scripts, "
              "close sequences and captured connections (black box, incl. key-block derivation from the logged master secret)")
-LEVEL_TEXT = ("Theorems in Coq (Props/C07.v, 28): extractPadding's constant-time arithmetic equals the RFC padding rule for every payload; "
+LEVEL_TEXT = ("Theorems in Coq (Props/C07.v, 30): extractPadding's constant-time arithmetic equals the RFC padding rule for every payload; "
               "incSeq is +1 on a 64-bit big-endian counter and panics exactly at 2^64-1; the sequence number is reset only by a requested "
               "ChangeCipherSpec arriving with no handshake bytes pending; nonce/AAD/MAC-input/record layouts; fresh explicit IVs from the "
               "randomness stream; decrypt(encrypt(r)) = r; for every byte stream an attacker can present (every script over deliver / flip / "
               "truncate / extend / swap / duplicate / drop / inject / cross-direction and cross-connection replay / header rewrite) the "
               "receiver delivers a prefix of what the sender wrote, its first error is permanent, its sequence number equals the number of "
               "accepted records - relative to the stated idealisation only; Write always succeeds (given randomness) and the writes arrive "
-              "in order; after a failure the fatal alert stops both directions; Read never drops the unread tail of a record. For SM4 / "
+              "in order; after a failure the fatal alert stops both directions; Read is chunking-independent (any buffer sizes) and never drops "
+              "the unread tail of a record. For SM4 / "
               "HMAC-SM3 / GCM-over-SM4 the premises on the primitives are proved (C07_*_sm4 theorems carry none). The model is tied to /repo "
               "by ~61 000 white-box cases per quick run (exhaustive bit flips for records <= 128 bytes, all padding lengths 0..255 with every "
               "padding byte corrupted, TLS 1.0 implicit-IV chains, 370 handshake-phase reads) and ~340 black-box cases on real GMSSL "
@@ -71,7 +72,8 @@ RULE = ("white box (seeded): per suite, payload lengths 0..43 (cbc) / 0..99 (gcm
         "whether an alert goes back. capture cases (K): 12 real connections (both suites) with Config.KeyLogWriter and a seeded Config.Rand; "
         "the extracted Coq development derives the key block from the logged master secret and the hello randoms (PRF over HMAC-SM3, "
         "Agree/KeyModel.v) and opens every record captured after ChangeCipherSpec in both directions (Finished under sequence number 0, then "
-        "the application data): the decoded bytes must equal what the endpoints wrote and read. close cases (C): 24 runs of writes, "
+        "the application data): the decoded bytes must equal what the endpoints wrote and read, and the verify_data of both decrypted Finished "
+        "messages must equal PRF(master secret, finished label, SM3(handshake messages captured in the clear)). close cases (C): 24 runs of writes, "
         "close_notify, all bytes buffered at once, Read buffers smaller than the last record. "
         "A case is non-trivial unless it is an empty-input helper call; distinct = distinct case text")
 
@@ -233,7 +235,7 @@ def predicate(f, io):
         return True, ""
     if op == "K":
         # a captured connection: both directions delivered exactly what was written
-        if io[0] != "ok" or len(io) != 3:
+        if io[0] != "ok" or len(io) != 5 or io[3:] != ["1", "1"]:
             return False, "capture: " + " ".join(io[:2])
         salt = int(f[1]) % 251
         for k, (ws, sl) in enumerate(((f[3], salt), (f[4], salt + 1))):
